@@ -214,6 +214,14 @@ impl<'a> Runner<'a> {
                     let mut h = self.hub.lock().unwrap();
                     h.log(format!("T fire {}", i));
                     if let Some(&g) = h.timers.get(i) { h.release(g); }
+                    // simultaneous expiry: the remaining timers of the outer wait fire before the machine gets to run
+                    while !h.reboot_phase && h.env.burst && matches!(h.env.wake.first(), Some(Step::Fire(_))) {
+                        if let Step::Fire(j) = h.env.wake.remove(0) {
+                            if h.env.wake.is_empty() { let dt = h.env.wakedt; h.tick(dt); }
+                            h.log(format!("T fire {}", j));
+                            if let Some(&g) = h.timers.get(j) { h.release(g); }
+                        }
+                    }
                 }
                 Some(Step::Ctl(id, od)) => { self.submit_ctl(id, od); }
                 Some(Step::CtlPair(id1, od1, id2, od2)) => {
